@@ -72,7 +72,9 @@ def _loop(worker):
     return lps[0]
 
 
-def _run_iteration(repo, worker, env, facts, is_first, is_last):
+def _run_iteration(repo, worker, env, facts, is_first, is_last, last_exact=False):
+    """One symbolic pass through the batch loop.  Cases: interior / first / last batch; the last batch is either short
+    (ns - first_s < NBATCH) or an exact fit (ns - first_s == NBATCH, `last_exact`)."""
     lp = _loop(worker)
     # locals set before the loop (e.g. a hoisted stride) are visible in the iteration
     ev_pre = Evaluator(env=dict(env), facts=facts.copy(), resolve=lambda x: repo.resolve_expr(worker, x))
@@ -82,12 +84,21 @@ def _run_iteration(repo, worker, env, facts, is_first, is_last):
     env = {k: v for k, v in ev_pre.env.items() if not any(sym.startswith("?") for sym in v.symbols())}
 
     def assume(t):
-        if isinstance(t, ast.Compare) and len(t.ops) == 1 and isinstance(t.ops[0], ast.Eq):
-            l, r = loc_name(t.left), t.comparators[0]
-            if l == "first_s" and const_value(r) == (True, 0):
-                return is_first
-            if l == "last_s" and src(r).endswith(".ns"):
-                return is_last
+        if isinstance(t, ast.Compare) and len(t.ops) == 1:
+            l, r, op = loc_name(t.left), t.comparators[0], t.ops[0]
+            if l == "first_s" and const_value(r) == (True, 0) and isinstance(op, (ast.Eq, ast.NotEq, ast.Gt)):
+                return is_first if isinstance(op, ast.Eq) else (not is_first)
+            if l == "last_s" and src(r).endswith(".ns") and isinstance(op, (ast.Eq, ast.GtE, ast.NotEq, ast.Lt)):
+                return is_last if isinstance(op, (ast.Eq, ast.GtE)) else (not is_last)
+            # length of the batch actually read, compared with the nominal batch length: shorter only for a short last batch
+            ls = src(t.left)
+            is_len = ls in ("chunk.shape[1]", "chunk.shape[-1]", "last_s - first_s") or (ls.endswith(".shape[1]") and "chunk" in ls)
+            if is_len and loc_name(r) == "NBATCH":
+                short = is_last and not last_exact
+                if isinstance(op, ast.Lt) or isinstance(op, ast.NotEq):
+                    return short
+                if isinstance(op, (ast.Eq, ast.GtE)):
+                    return not short
         return None
     e = dict(env)
     e["first_s"] = Poly.const(0) if is_first else Poly.sym("F")
@@ -106,6 +117,11 @@ def _run_iteration(repo, worker, env, facts, is_first, is_last):
         if isinstance(s, ast.If) and any(isinstance(x, ast.Break) for x in ast.walk(s)):
             snap["break_test"] = s.test
             continue
+        if isinstance(s, ast.If) and any(isinstance(x, (ast.Assign, ast.AugAssign)) and "ind2save" in src(x.targets[0] if isinstance(x, ast.Assign) else x.target)
+                                         for y in s.body + s.orelse for x in ast.walk(y)):
+            # the branch decides the kept range: it must be decidable in this case, otherwise the rule cannot speak
+            if ev.decide(s.test) is None:
+                raise AnalysisError(f"{worker.qualname}: the test `{src(s.test)}` selecting the kept range is not understood")
         sx.step(s)
     if "stride" not in snap:
         raise AnalysisError(f"{worker.qualname}: advance of first_s not found in the batch loop")
@@ -134,6 +150,7 @@ def d1_tiling(ctx):
     interior = _run_iteration(repo, worker, env, facts, False, False)
     first = _run_iteration(repo, worker, env, facts, True, False)
     last = _run_iteration(repo, worker, env, facts, False, True)
+    last_exact = _run_iteration(repo, worker, env, facts, False, True, last_exact=True)
     S = interior["stride"]
     ctx.check(S == NB - Poly.const(2) * T, worker, lp, f"stride = {S}", "batches advance by NBATCH - 2*TAPER",
               f"batch stride is {S}, expected {NB - Poly.const(2) * T}", key="stride")
@@ -165,6 +182,10 @@ def d1_tiling(ctx):
               f"first batch keeps [{first['a']}, {first['b']})", key="first")
     ctx.check(last["a"] == a and last["b"] == NB, worker, lp, f"last batch keeps [{last['a']}, {last['b']})", "last batch is kept to its end",
               f"last batch keeps [{last['a']}, {last['b']}) instead of [{a}, {NB})", key="last")
+    ctx.check(last_exact["a"] == a and last_exact["b"] == NB, worker, lp, f"last batch of exactly NBATCH samples keeps [{last_exact['a']}, {last_exact['b']})",
+              "a last batch that is exactly one full batch long is also kept to its end",
+              f"when the recording ends exactly on a full batch (ns == NBATCH + k*stride) the last batch keeps [{last_exact['a']}, {last_exact['b']}) instead of [{a}, {NB}): "
+              "the final TAPER samples of the file (sync included) are never written", key="last-exact")
     ls = interior["last_s"]
     evm = Evaluator(env={"x": NB + Poly.sym("F"), "y": Poly.sym("_sr.ns")}, facts=facts.copy())
     want_ls = evm.ev(ast.parse("min(x, y)", mode="eval").body)
